@@ -27,6 +27,7 @@ ASSUMPTIONS = [
     "security codes of 0..40 bytes are judged (the key is the first 16 bytes of SHA-256 of the whole code, as stated); 8 bytes is the documented size",
 ]
 TIMEOUT = {"quick": 900, "thorough": 4 * 3600}
+OPTIMIZED_SHARDS = ("len05", "len03")  # these shards also run under python -O
 NSH = 16
 
 
